@@ -61,6 +61,16 @@ HasLocalGroupings(ss) == \E i \in DOMAIN ss : ss[i].gs # << >> \/ HasLocalGroupi
 
 Container(s) == s.k \in {"container", "list", "case"}
 
+\* the type statements of the leaves in ss (deep)
+RECURSIVE TypeRefs(_)
+TypeRefs(ss) == UNION { IF ss[i].k \in {"leaf", "leaflist"} THEN { ss[i].ty } ELSE TypeRefs(ss[i].c) : i \in DOMAIN ss }
+
+RECURSIVE HasLocalTypedefs(_)
+HasLocalTypedefs(ss) == \E i \in DOMAIN ss : ss[i].tds # << >> \/ HasLocalTypedefs(ss[i].c)
+
+\* a type reference that means the same anywhere in the module: built-in, prefixed, or a module-level typedef
+ModuleWide(ty) == ty.n \in Builtins \/ ty.p # "" \/ IndexOfName(ModuleLevel(ms, Main).tds, ty.n) > 0
+
 RECURSIVE UsesRefs(_)
 UsesRefs(ss) == UNION { IF ss[i].k = "uses" THEN { ss[i].ref0 } ELSE UsesRefs(ss[i].c) : i \in DOMAIN ss }
 
@@ -120,15 +130,18 @@ ExtractGrouping ==
     \E ip \in PathsIn(M.body) \cup { << >> }, local \in BOOLEAN :
       LET kids == KidsAt(M.body, ip) IN
       /\ (IF ip = << >> THEN ~local ELSE Container(StmtAt(M.body, ip)))
+      \* RFC 7950 7.9.2: a case has no grouping substatement
+      /\ (local => StmtAt(M.body, ip).k \in {"container", "list"})
       /\ \E i \in DOMAIN kids : \E j \in i..Len(kids) :
             LET seg == SubSeq(kids, i, j)
                 name == FreshName("g")
-                g == [n |-> name, c |-> seg, gs |-> << >>]
+                g == [n |-> name, c |-> seg, gs |-> << >>, tds |-> << >>]
                 u == [St("uses", name) EXCEPT !.ref0 = [p |-> "", g |-> name]]
                 newKids == SubSeq(kids, 1, i - 1) \o << u >> \o SubSeq(kids, j + 1, Len(kids))
                 body1 == WithKidsAt(M.body, ip, newKids)
             IN \* what the statements refer to must be visible where the grouping is defined
                /\ (local \/ \A r \in UsesRefs(seg) : r.p # "" \/ IndexOfName(ModuleGroupings(ms, Main), r.g) > 0)
+               /\ (local \/ \A t \in TypeRefs(seg) : ModuleWide(t))
                /\ Step([ms EXCEPT ![Main] =
                         IF local
                         THEN [M EXCEPT !.body = WithStmtAt(body1, ip, [StmtAt(body1, ip) EXCEPT !.gs = @ \o << g >>])]
@@ -143,7 +156,7 @@ InlineUses ==
           i == ip[Len(ip)]
       IN /\ s.k = "uses" /\ s.ref = << >> /\ s.aug = << >> /\ s.ref0.p = "" /\ s.iff = ""
          /\ LET gi == IndexOfName(M.gs, s.ref0.g) IN
-            /\ gi > 0 /\ M.gs[gi].gs = << >>
+            /\ gi > 0 /\ M.gs[gi].gs = << >> /\ M.gs[gi].tds = << >>
             /\ Step([ms EXCEPT ![Main] = [M EXCEPT !.body =
                       WithKidsAt(M.body, parent, SubSeq(kids, 1, i - 1) \o M.gs[gi].c \o SubSeq(kids, i + 1, Len(kids)))]])
 
@@ -173,6 +186,7 @@ TailToUsesAugment ==
          /\ \A k \in 1..Len(rp) : StmtAt(g.c, SubSeq(rp, 1, k)).k # "uses"
          /\ LET x == t.c[Len(t.c)] IN
             /\ x.k # "uses" /\ ~HasUses(<< x >>) /\ ~HasLocalGroupings(<< x >>)
+            /\ (\A ty \in TypeRefs(<< x >>) : ModuleWide(ty)) /\ g.tds = << >>
             /\ (t.k = "choice" => x.k = "case")
             /\ (t.k = "list" => \A k \in DOMAIN t.keys : t.keys[k] # x.n)
             /\ AllUsesOf(ref) # {}
@@ -196,6 +210,7 @@ TailToModuleAugment ==
             /\ (t.k = "list" => \A k \in DOMAIN t.keys : t.keys[k] # x.n)
             \* what x's own statements refer to must be visible at module level
             /\ \A k \in 1..Len(ip) : StmtAt(M.body, SubSeq(ip, 1, k)).gs = << >>
+            /\ \A k \in 1..Len(ip) : StmtAt(M.body, SubSeq(ip, 1, k)).tds = << >>
             \* config is inherited through the target: an augment inherits from its target too
             /\ Step([ms EXCEPT ![Main] = [M EXCEPT !.body = WithStmtAt(M.body, ip, [t EXCEPT !.c = SubSeq(t.c, 1, Len(t.c) - 1)]),
                                                    !.augs = << [path |-> names, c |-> << x >>, mod |-> ""] >> \o @]])
@@ -208,7 +223,7 @@ TailToSubmodule ==
        IN IF M.includes = << >>
           THEN Step([ n \in DOMAIN ms \cup {"sx"} |->
                       IF n = Main THEN [M EXCEPT !.body = body1, !.includes = << "sx" >>]
-                      ELSE IF n = "sx" THEN [name |-> "sx", prefix |-> M.prefix, sub |-> TRUE, belongs |-> Main, gs |-> << >>,
+                      ELSE IF n = "sx" THEN [name |-> "sx", prefix |-> M.prefix, sub |-> TRUE, belongs |-> Main, gs |-> << >>, tds |-> << >>,
                                              body |-> << x >>, augs |-> << >>, includes |-> << >>, imports |-> M.imports]
                       ELSE ms[n] ])
           ELSE LET sn == M.includes[1] IN
@@ -221,11 +236,12 @@ GroupingToImport ==
           ref == [p |-> "", g |-> g.n]
           gs1 == SubSeq(M.gs, 1, gi - 1) \o SubSeq(M.gs, gi + 1, Len(M.gs))
       IN /\ ~HasUses(g.c) /\ g.gs = << >> /\ ~HasIff(g.c)
+         /\ g.tds = << >> /\ \A ty \in TypeRefs(g.c) : ty.n \in Builtins /\ ty.p = ""
          /\ "ix" \notin DOMAIN ms
          /\ LET m1 == [M EXCEPT !.gs = gs1, !.imports = @ \o << [m |-> "ix", p |-> "ix"] >>]
                 base == [ n \in DOMAIN ms \cup {"ix"} |->
                            IF n = Main THEN m1
-                           ELSE IF n = "ix" THEN [name |-> "ix", prefix |-> "ix", sub |-> FALSE, belongs |-> "", gs |-> << g >>,
+                           ELSE IF n = "ix" THEN [name |-> "ix", prefix |-> "ix", sub |-> FALSE, belongs |-> "", gs |-> << g >>, tds |-> << >>,
                                                   body |-> << >>, augs |-> << >>, includes |-> << >>, imports |-> << >>]
                            ELSE IF ms[n].sub /\ ms[n].belongs = Main THEN [ms[n] EXCEPT !.imports = @ \o << [m |-> "ix", p |-> "ix"] >>]
                            ELSE ms[n] ]
@@ -256,11 +272,122 @@ ToggleConfig ==
          /\ \/ s.cfg = "" /\ Step([ms EXCEPT ![Main] = [M EXCEPT !.body = WithStmtAt(M.body, ip, [s EXCEPT !.cfg = inh])]])
             \/ s.cfg = inh /\ Step([ms EXCEPT ![Main] = [M EXCEPT !.body = WithStmtAt(M.body, ip, [s EXCEPT !.cfg = ""])]])
 
+
+-----------------------------------------------------------------------------
+(* refactorings of type statements (C02) *)
+
+IsPlainPath(ip) == \A k \in 1..Len(ip) : StmtAt(M.body, SubSeq(ip, 1, k)).k # "uses"
+
+\* T1: the built-in type statement of a leaf becomes a typedef (at module level, or local to the
+\* enclosing container / list); its default and units move along or stay on the leaf
+ExtractTypedef ==
+    \E ip \in PathsIn(M.body), local \in BOOLEAN, moveD \in BOOLEAN, moveU \in BOOLEAN :
+      LET s == StmtAt(M.body, ip)
+          name == FreshName("t")
+          td == [n |-> name, ty |-> s.ty, dflt |-> IF moveD THEN s.dflt ELSE "", units |-> IF moveU THEN s.units ELSE ""]
+          s1 == [s EXCEPT !.ty = [p |-> "", n |-> name, rng |-> "", en |-> << >>],
+                          !.dflt = IF moveD THEN "" ELSE s.dflt, !.units = IF moveU THEN "" ELSE s.units]
+          parent == SubSeq(ip, 1, Len(ip) - 1)
+      IN /\ s.k \in {"leaf", "leaflist"} /\ IsPlainPath(ip) /\ s.ty.p = "" /\ s.ty.n \in Builtins
+         /\ (moveD => s.dflt # "") /\ (moveU => s.units # "")
+         \* a mandatory leaf has no default: a typedef default would give it one
+         /\ (moveD => s.mand # "true")
+         /\ IF local
+            THEN /\ parent # << >> /\ StmtAt(M.body, parent).k \in {"container", "list"}
+                 /\ LET b1 == WithStmtAt(M.body, ip, s1)
+                    IN Step([ms EXCEPT ![Main] = [M EXCEPT !.body = WithStmtAt(b1, parent, [StmtAt(b1, parent) EXCEPT !.tds = @ \o << td >>])]])
+            ELSE Step([ms EXCEPT ![Main] = [M EXCEPT !.body = WithStmtAt(M.body, ip, s1), !.tds = @ \o << td >>]])
+
+\* T2: a module-level typedef gets an intermediate typedef that takes over everything it states
+ChainTypedef ==
+    \E i \in DOMAIN M.tds :
+      LET t == M.tds[i]
+          name == FreshName("t")
+          lower == [t EXCEPT !.n = name]
+          upper == [n |-> t.n, ty |-> [p |-> "", n |-> name, rng |-> "", en |-> << >>], dflt |-> "", units |-> ""]
+      IN Step([ms EXCEPT ![Main] = [M EXCEPT !.tds = [@ EXCEPT ![i] = upper] \o << lower >>]])
+
+\* T3: what a leaf inherits from its typedef chain is stated on the leaf itself, or a stated value that
+\* equals what would be inherited is removed
+ToggleInherited ==
+    \E ip \in PathsIn(M.body), attr \in {"dflt", "units"} :
+      LET s == StmtAt(M.body, ip)
+          \* all enclosing statements are plain, so the lexical scope can be rebuilt from them
+          scope == [ k \in 1..(Len(ip) - 1) |->
+                       LET a == StmtAt(M.body, SubSeq(ip, 1, Len(ip) - k)) IN [gs |-> a.gs, tds |-> a.tds] ]
+                   \o << ModuleLevel(ms, Main) >>
+          r == ResolveType(ms, Main, scope, s.ty)
+          inh == IF attr = "dflt" THEN r.dflt ELSE r.units
+          own == IF attr = "dflt" THEN s.dflt ELSE s.units
+          put(v) == IF attr = "dflt" THEN [s EXCEPT !.dflt = v] ELSE [s EXCEPT !.units = v]
+      IN /\ s.k \in {"leaf", "leaflist"} /\ IsPlainPath(ip) /\ inh # ""
+         /\ (attr = "dflt" => s.mand # "true")
+         /\ \/ own = "" /\ Step([ms EXCEPT ![Main] = [M EXCEPT !.body = WithStmtAt(M.body, ip, put(inh))]])
+            \/ own = inh /\ Step([ms EXCEPT ![Main] = [M EXCEPT !.body = WithStmtAt(M.body, ip, put(""))]])
+
+\* rewriting references to a typedef everywhere in the main module and its submodules
+RECURSIVE MapTypes(_, _, _)
+MapTypes(ss, name, prefix) ==
+    [ i \in DOMAIN ss |->
+        LET s == ss[i]
+            fix(ty) == IF ty.p = "" /\ ty.n = name THEN [ty EXCEPT !.p = prefix] ELSE ty
+        IN [s EXCEPT !.ty = fix(s.ty),
+                     !.c = MapTypes(s.c, name, prefix),
+                     !.tds = [ j \in DOMAIN s.tds |-> [s.tds[j] EXCEPT !.ty = fix(@)] ],
+                     !.gs = [ j \in DOMAIN s.gs |-> [s.gs[j] EXCEPT !.c = MapTypes(s.gs[j].c, name, prefix),
+                                                                    !.tds = [ k \in DOMAIN s.gs[j].tds |-> [s.gs[j].tds[k] EXCEPT !.ty = fix(@)] ]] ],
+                     !.aug = [ j \in DOMAIN s.aug |-> [s.aug[j] EXCEPT !.c = MapTypes(s.aug[j].c, name, prefix)] ]] ]
+
+MapTypesModule(m, name, prefix) ==
+    LET fix(ty) == IF ty.p = "" /\ ty.n = name THEN [ty EXCEPT !.p = prefix] ELSE ty IN
+    [m EXCEPT !.body = MapTypes(m.body, name, prefix),
+              !.tds = [ j \in DOMAIN m.tds |-> [m.tds[j] EXCEPT !.ty = fix(@)] ],
+              !.gs = [ j \in DOMAIN m.gs |-> [m.gs[j] EXCEPT !.c = MapTypes(m.gs[j].c, name, prefix),
+                                                              !.tds = [ k \in DOMAIN m.gs[j].tds |-> [m.gs[j].tds[k] EXCEPT !.ty = fix(@)] ]] ],
+              !.augs = [ j \in DOMAIN m.augs |-> [m.augs[j] EXCEPT !.c = MapTypes(m.augs[j].c, name, prefix)] ]]
+
+RECURSIVE ShadowedIn(_, _)
+ShadowedIn(ss, name) ==
+    \E i \in DOMAIN ss : \/ IndexOfName(ss[i].tds, name) > 0
+                         \/ ShadowedIn(ss[i].c, name)
+                         \/ \E j \in DOMAIN ss[i].gs : IndexOfName(ss[i].gs[j].tds, name) > 0 \/ ShadowedIn(ss[i].gs[j].c, name)
+
+\* T4: a module-level typedef over a built-in type moves into an imported module; references get the prefix
+TypedefToImport ==
+    \E i \in DOMAIN M.tds :
+      LET t == M.tds[i]
+          tds1 == SubSeq(M.tds, 1, i - 1) \o SubSeq(M.tds, i + 1, Len(M.tds))
+      IN /\ t.ty.p = "" /\ t.ty.n \in Builtins
+         /\ "ix" \notin DOMAIN ms
+         \* no local typedef of the same name anywhere (the unprefixed name keeps meaning the local one)
+         /\ \A n \in Family : ~ShadowedIn(ms[n].body, t.n) /\ \A j \in DOMAIN ms[n].gs : IndexOfName(ms[n].gs[j].tds, t.n) = 0 /\ ~ShadowedIn(ms[n].gs[j].c, t.n)
+         /\ LET m1 == [M EXCEPT !.tds = tds1, !.imports = @ \o << [m |-> "ix", p |-> "ix"] >>]
+                base == [ n \in DOMAIN ms \cup {"ix"} |->
+                           IF n = Main THEN m1
+                           ELSE IF n = "ix" THEN [name |-> "ix", prefix |-> "ix", sub |-> FALSE, belongs |-> "", gs |-> << >>, tds |-> << t >>,
+                                                  body |-> << >>, augs |-> << >>, includes |-> << >>, imports |-> << >>]
+                           ELSE IF ms[n].sub /\ ms[n].belongs = Main THEN [ms[n] EXCEPT !.imports = @ \o << [m |-> "ix", p |-> "ix"] >>]
+                           ELSE ms[n] ]
+            IN Step([ n \in DOMAIN base |->
+                       IF n = Main \/ (base[n].sub /\ base[n].belongs = Main) THEN MapTypesModule(base[n], t.n, "ix") ELSE base[n] ])
+
+\* T5: a module-level typedef moves into the first submodule
+TypedefToSubmodule ==
+    /\ M.includes # << >>
+    /\ \E i \in DOMAIN M.tds :
+         LET sn == M.includes[1] IN
+         Step([ms EXCEPT ![Main] = [M EXCEPT !.tds = SubSeq(M.tds, 1, i - 1) \o SubSeq(M.tds, i + 1, Len(M.tds))],
+                         ![sn] = [@ EXCEPT !.tds = @ \o << M.tds[i] >>]])
+
+NextTypes == \/ ExtractTypedef \/ ChainTypedef \/ ToggleInherited \/ TypedefToImport \/ TypedefToSubmodule
+             \/ ExtractGrouping \/ InlineUses \/ GroupingToSubmodule \/ TailToSubmodule
+
 Next == \/ ExtractGrouping \/ InlineUses \/ AttrToRefine \/ TailToUsesAugment \/ TailToModuleAugment
         \/ TailToSubmodule \/ GroupingToImport \/ GroupingToSubmodule \/ ToggleConfig
 
 Init == /\ seed \in Seeds /\ ms = seed /\ steps = 0 /\ fresh = 0
 Spec == Init /\ [][Next]_vars
+SpecTypes == Init /\ [][NextTypes]_vars
 
 -----------------------------------------------------------------------------
 MeaningPreserved == \A on \in SUBSET Features : Meaning(ms, Main, on) = Meaning(seed, Main, on)
